@@ -52,7 +52,9 @@ def gen_case(rng, tier, idx):
     cfg = T.gen_config(rng)
     n = rng.randint(1, 14)
     base = "~~%d" % rng.randint(0, 10 ** 6)
-    lines = [T.gen_line(rng, cfg, "%s~%d~~" % (base, i)) for i in range(n)]
+    lines = [T.gen_line(rng, cfg, "%s~%d~~" % (base, i)) if rng.random() > 0.08 else
+             # a command line carrying several credentials
+             T.gen_line(rng, cfg, "%s~%d~~" % (base, i), kinds=["pw", "pw", "pw", "fill", "ip"], nslots=rng.randint(3, 5)) for i in range(n)]
     entry = rng.choice(["content", "content", "file", "provider", "provider_file"])
     width = rng.random() < 0.15
     if width:
